@@ -115,17 +115,17 @@ fn build_image(layout: &[Vec<u8>]) -> Result<Image, String> {
 
 fn regions(f: &FileImg) -> imgx::Regions {
     let mut r: imgx::Regions = vec![
-        ("file.magic".into(), 0, 4),
-        ("file.version".into(), 4, 5),
-        ("file.flags".into(), 5, 6),
-        ("file.reserved".into(), 6, 8),
-        ("file.sequence".into(), 8, 16),
+        ("file.magic", 0, 4),
+        ("file.version", 4, 5),
+        ("file.flags", 5, 6),
+        ("file.reserved", 6, 8),
+        ("file.sequence", 8, 16),
     ];
     for e in &f.entries {
-        r.push(("entry.len".into(), e.start, e.start + 4));
-        r.push(("entry.stamp".into(), e.start + 4, e.start + 12));
-        r.push(("entry.crc".into(), e.start + 12, e.start + 16));
-        r.push(("entry.payload".into(), e.start + 16, e.end));
+        r.push(("entry.len", e.start, e.start + 4));
+        r.push(("entry.stamp", e.start + 4, e.start + 12));
+        r.push(("entry.crc", e.start + 12, e.start + 16));
+        r.push(("entry.payload", e.start + 16, e.end));
     }
     r
 }
@@ -139,13 +139,21 @@ struct Stats {
     evaluations: u64,
     nontrivial: u64,
     identity: u64,
-    outcomes: BTreeMap<String, u64>,
+    outcomes: BTreeMap<(&'static str, &'static str, String), u64>,
     after_calls: u64,
 }
 
 impl Stats {
-    fn bump(&mut self, k: String) {
-        *self.outcomes.entry(k).or_insert(0) += 1;
+    fn bump(&mut self, kind: &'static str, region: &'static str, outcome: &str) {
+        match self.outcomes.iter_mut().find(|(k, _)| k.0 == kind && k.1 == region && k.2 == outcome) {
+            Some((_, v)) => *v += 1,
+            None => {
+                self.outcomes.insert((kind, region, outcome.to_string()), 1);
+            }
+        }
+    }
+    fn table(&self) -> BTreeMap<String, u64> {
+        self.outcomes.iter().map(|((k, r, o), v)| (format!("{k} {r} -> {o}"), *v)).collect()
     }
     fn merge(&mut self, o: Stats) {
         self.evaluations += o.evaluations;
@@ -188,11 +196,11 @@ fn eval_mutation(
     let first = mu.first_changed(&f.bytes);
     let last_end = mu.last_changed_end(&f.bytes);
     stats.evaluations += 1;
-    let region = first.map(|o| imgx::region_of(regs, o).to_string()).unwrap_or_else(|| "identity".into());
-    let class = format!("{} {}", mu.kind(), region);
+    let region: &'static str = first.map(|o| imgx::region_of(regs, o)).unwrap_or("identity");
+    let kind = mu.kind();
     let fail = |mismatch: &str, detail: String| -> Option<Found> {
         Some(Found {
-            sig: format!("{class}: {mismatch}"),
+            sig: format!("{kind} {region}: {mismatch}"),
             detail: format!(
                 "layout (payload kinds per file) {:?}, file #{m} ({}, {} bytes), mutation {:?}: {detail}",
                 layout,
@@ -245,7 +253,7 @@ fn eval_mutation(
                 );
             }
             stats.nontrivial += 1;
-            stats.bump(format!("{class} -> error returned, nothing intact hidden"));
+            stats.bump(kind, region, "error returned, nothing intact hidden");
             return None;
         }
     };
@@ -337,7 +345,7 @@ fn eval_mutation(
             return fail("harness-region-gap", "damage outside header and entries".into());
         }
     }
-    stats.bump(format!("{class} -> {outcome}"));
+    stats.bump(kind, region, outcome);
     // recover_entries_after(T) == deltas of the recovered entries stamped >= T, in order
     for (t, r) in thresholds.iter().zip(after) {
         stats.after_calls += 1;
@@ -373,7 +381,7 @@ fn sweep_file(layout: &[Vec<u8>], m: usize, set: MutationSet) -> Result<(Stats, 
     let regs = regions(&img.files[m]);
     for mu in imgx::all_mutations(img.files[m].bytes.len(), set) {
         if let Some(f) = eval_mutation(&img, &rot, layout, m, mu, &th, &regs, &mut stats) {
-            stats.bump(format!("{} -> VIOLATION", f.sig));
+            stats.bump("VIOLATION", "", &f.sig);
             found.entry(f.sig.clone()).or_insert(f);
         }
     }
@@ -705,7 +713,7 @@ fn main() {
         "recover_entries_after_calls_checked": stats.after_calls,
         "damage_bounds": if thorough { "1 file: 39 sequences; 2 files: 39^2; 3 files: 39^3 (sequences of 1..3 entries over 3 payload kinds)" } else { "1 file: 39 sequences of 1..3 entries; 2 files: 12^2 (sequences of 1..2 entries); 3 files: 3^3 (1 entry each); 3 payload kinds" },
         "distinct_outcome_classes": outcome_count,
-        "outcomes_by_mutation_and_region": stats.outcomes,
+        "outcomes_by_mutation_and_region": stats.table(),
         "truncation_cases": twork.len(),
         "truncation_layouts": tl.len(),
         "truncation_nontrivial": t_nontrivial,
